@@ -47,8 +47,122 @@ UNUSED_OK = {
 }
 
 
+def _names_read(e):
+    out=set()
+    for x in ast.walk(e):
+        if isinstance(x,ast.Name) and isinstance(x.ctx,ast.Load): out.add(x.id)
+    return out
+
+def dead_stores(fn):
+    """Assignments to a local whose value no later statement can read
+    (backward liveness over the structured statements; stores inside try
+    blocks are not judged)."""
+    if any(isinstance(x,(ast.Global,ast.Nonlocal)) for x in ast.walk(fn)): return []
+    found=[]
+    def targets(t):
+        if isinstance(t,ast.Name): return [t.id],set()
+        if isinstance(t,(ast.Tuple,ast.List)):
+            ks=[];rs=set()
+            for e in t.elts:
+                k,r=targets(e); ks+=k; rs|=r
+            return ks,rs
+        if isinstance(t,ast.Starred): return targets(t.value)
+        return [],_names_read(t)
+    def block(stmts,live,in_try,loop_live):
+        for s in reversed(stmts):
+            live=stmt(s,live,in_try,loop_live)
+        return live
+    def stmt(s,live,in_try,loop_live):
+        if isinstance(s,(ast.Assign,ast.AnnAssign,ast.AugAssign)):
+            tgs=s.targets if isinstance(s,ast.Assign) else [s.target]
+            val=s.value
+            kills=[];reads=set()
+            for t in tgs:
+                k,r=targets(t); kills+=k; reads|=r
+            if isinstance(s,ast.AugAssign) and isinstance(s.target,ast.Name):
+                reads.add(s.target.id)
+            if len(tgs)==1 and isinstance(tgs[0],ast.Name) and not in_try and val is not None:
+                nm=tgs[0].id
+                if nm not in live and not nm.startswith('_'):
+                    found.append((s,nm))
+            new=set(live)-set(kills)
+            if val is not None: new|=_names_read(val)
+            return new|reads
+        if isinstance(s,ast.If):
+            a=block(s.body,set(live),in_try,loop_live); b=block(s.orelse,set(live),in_try,loop_live)
+            return a|b|_names_read(s.test)
+        if isinstance(s,(ast.For,ast.While)):
+            head=set(live)
+            if isinstance(s,ast.For): cond=_names_read(s.iter)
+            else: cond=_names_read(s.test)
+            cur=set(live)|cond
+            saved=len(found)
+            for _ in range(3):
+                del found[saved:]
+                body_live=block(s.body,set(cur),in_try,(set(live),set(cur)))
+                if isinstance(s,ast.For):
+                    k,r=targets(s.target); body_live=(body_live-set(k))|r
+                nxt=cur|body_live
+                if nxt==cur: break
+                cur=nxt
+            oe=block(s.orelse,set(live),in_try,loop_live)
+            return cur|oe
+        if isinstance(s,ast.Try):
+            after=block(s.finalbody,set(live),True,loop_live) if s.finalbody else set(live)
+            hl=set()
+            for h in s.handlers: hl|=block(h.body,set(after),True,loop_live)
+            oe=block(s.orelse,set(after),True,loop_live) if s.orelse else set(after)
+            b=block(s.body,set(oe)|hl,True,loop_live)
+            return b|hl
+        if isinstance(s,ast.With):
+            b=block(s.body,set(live),in_try,loop_live)
+            for it in s.items:
+                b|=_names_read(it.context_expr)
+            return b
+        if isinstance(s,ast.Return):
+            return _names_read(s.value) if s.value is not None else set()
+        if isinstance(s,ast.Raise):
+            return _names_read(s)
+        if isinstance(s,(ast.Break,)):
+            return set(loop_live[0]) if loop_live else set(live)
+        if isinstance(s,(ast.Continue,)):
+            return set(loop_live[1]) if loop_live else set(live)
+        if isinstance(s,(ast.FunctionDef,ast.ClassDef)):
+            return live|_names_read(s)
+        return live|_names_read(s)
+    block(fn.body,set(),False,None)
+    return found
+
+
+# dead stores of the pinned tree, one reason each
+DEAD_STORE_OK = {
+    ('LinearCovariateModel', 'compute_sensitivities', 'n_pop'):
+        'left-over bookkeeping after the flattening; no later use',
+    ('LinearCovariateModel', 'compute_sensitivities', 'parameters'):
+        'left-over transposition; the coefficients are not read again',
+    ('GaussianModel', '_compute_sensitivities', 'n_ids'):
+        'left-over count',
+    ('LogNormalModel', '_compute_sensitivities', 'n_ids'):
+        'left-over count',
+    ('GaussianModel', 'compute_individual_parameters', 'n_parameters'):
+        'the rank-dispatch slip recorded as D-08a (reported by R05.1)',
+    ('LogNormalModel', 'compute_individual_parameters', 'n_parameters'):
+        'the rank-dispatch slip recorded as D-08b (reported by R05.1)',
+    ('LogNormalModel', 'compute_sensitivities', 'n_parameters'):
+        'the rank-dispatch slip recorded as D-08c (reported by R05.1)',
+}
+
+
 def _targets(t):
     return {x.id for x in ast.walk(t) if isinstance(x, ast.Name)}
+
+
+# keywords whose default legitimately differs between functions
+DEFAULTS_DIFFER_OK = {
+    'n_samples': 'samplers default to one sample (None), the filter '
+                 'posterior to 100 simulated individuals',
+    'shared_y': 'the two figure templates differ on purpose',
+}
 
 
 def scoped(name, files):
@@ -58,6 +172,19 @@ def scoped(name, files):
     return rule
 
 
+# `x[-n:]` / `x[:-n]` with a computed n: for n == 0 the first is the whole
+# array and the second is empty.  Sites where n cannot be 0, one reason each.
+NEG_SLICE_OK = {
+    ('ReducedErrorModel', 'compute_sensitivities', '-self._n_parameters:'):
+        'an error model has at least one parameter',
+}
+PURE_CALLS = {'dict', 'list', 'tuple', 'set', 'int', 'float', 'str', 'bool',
+              'np.asarray', 'np.array', 'sorted', 'len', 'np.copy',
+              'copy.copy', 'copy.deepcopy', 'np.sort', 'np.unique'}
+GLOBAL_SETTERS = {'np.seterr', 'np.seterrcall', 'np.set_printoptions',
+                  'warnings.simplefilter', 'warnings.filterwarnings',
+                  'os.chdir', 'sys.setrecursionlimit', 'np.setbufsize',
+                  'pd.set_option'}
 DUCK_RELATED = {('ReducedErrorModel', 'ErrorModel')}
 MEMO_DECORATORS = ('lru_cache', 'cache', 'cached_property')
 
@@ -461,6 +588,142 @@ def r00(ctx, repo, files=None):
                             'the returned samples are a partial permutation, '
                             'not independent draws from the distribution' % (
                                 U(c)[:50], U(k.value)[:30]))
+        # L23: a value is computed into a local and never read (flow
+        # sensitive: the name is re-bound or the function ends first) — the
+        # update that was meant to happen is lost
+        for st, nm in dead_stores(fn):
+            if (cls, fn.name, nm) in DEAD_STORE_OK:
+                continue
+            bad += 1
+            ctx.violation(
+                rule, repo.loc(st, cls, fn.name), construct,
+                'L23 dead store %s' % nm,
+                '`%s` stores a value in `%s` that nothing reads afterwards: '
+                'if it was meant to update an array in place (a view was '
+                're-bound instead of written through) or to replace an '
+                'input, that update is lost' % (norm_stmt(st)[:60], nm))
+        # L16: a negated computed length as a slice bound
+        for sl in ast.walk(fn):
+            if not isinstance(sl, ast.Slice):
+                continue
+            for b in (sl.lower, sl.upper):
+                if isinstance(b, ast.UnaryOp) and isinstance(
+                        b.op, ast.USub) and not isinstance(
+                        b.operand, ast.Constant):
+                    if (cls, fn.name, U(sl).replace(' ', '')) in \
+                            NEG_SLICE_OK:
+                        continue
+                    # a dominating test that the length is non-zero
+                    nm = U(b.operand)
+                    guarded = False
+                    cur = getattr(sl, '_parent', None)
+                    while cur is not None and cur is not fn:
+                        if isinstance(cur, ast.If) and nm in U(cur.test):
+                            guarded = True
+                        cur = getattr(cur, '_parent', None)
+                    if guarded:
+                        continue
+                    bad += 1
+                    ctx.violation(
+                        rule, repo.loc(sl, cls, fn.name), construct,
+                        'L16 negated length in slice %s' % U(sl)[:30],
+                        'the slice `%s` counts from the end with the '
+                        'computed length `%s`: when that length is 0 the '
+                        'slice is %s instead of %s' % (
+                            U(sl), nm,
+                            'empty' if b is sl.upper else 'the whole array',
+                            'the whole array' if b is sl.upper
+                            else 'empty'))
+        # L17: comparisons up to a tolerance where the library compares
+        # exactly (a point mass accepts only its own value)
+        for c in ast.walk(fn):
+            if isinstance(c, ast.Call) and U(c.func) in (
+                    'np.isclose', 'np.allclose', 'math.isclose') \
+                    and not rel.startswith('chi/plots'):
+                bad += 1
+                ctx.violation(
+                    rule, repo.loc(c, cls, fn.name), construct,
+                    'L17 tolerance comparison',
+                    '`%s` accepts values that differ by the default '
+                    'tolerances (rtol 1e-5, atol 1e-8); the documented '
+                    'densities, supports and point masses are exact' % U(
+                        c)[:60])
+        # L18: the result of a pure conversion is discarded (the converted
+        # value was meant to replace its argument)
+        for st in ast.walk(fn):
+            if isinstance(st, ast.Expr) and isinstance(
+                    st.value, ast.Call) and U(st.value.func) in PURE_CALLS:
+                bad += 1
+                ctx.violation(
+                    rule, repo.loc(st, cls, fn.name), construct,
+                    'L18 discarded result %s' % U(st.value.func),
+                    '`%s` computes a value and drops it: the code below '
+                    'keeps working on the unconverted argument (a one-shot '
+                    'iterable is consumed by the conversion and then '
+                    'empty)' % U(st)[:60])
+        # L19: np.arange with a (possibly non-integer) step: the number of
+        # elements depends on floating point rounding of (stop-start)/step
+        for c in ast.walk(fn):
+            if isinstance(c, ast.Call) and U(c.func) in (
+                    'np.arange', 'numpy.arange'):
+                step = c.args[2] if len(c.args) >= 3 else None
+                for k in c.keywords:
+                    if k.arg == 'step':
+                        step = k.value
+                if step is not None and not (isinstance(
+                        step, ast.Constant) and isinstance(step.value, int)):
+                    bad += 1
+                    ctx.violation(
+                        rule, repo.loc(c, cls, fn.name), construct,
+                        'L19 arange with computed step',
+                        '`%s` builds a grid with the step `%s`: for '
+                        'non-integer steps the length of the result depends '
+                        'on rounding (numpy documents that it can contain '
+                        'one element more than (stop - start) / step)' % (
+                            U(c)[:60], U(step)[:20]))
+        # L20: filled() without a fill value writes the default 1e20
+        for c in ast.walk(fn):
+            if isinstance(c, ast.Call) and ((
+                    U(c.func) == 'np.ma.filled' and len(c.args) < 2
+                    and not c.keywords) or (
+                    isinstance(c.func, ast.Attribute)
+                    and c.func.attr == 'filled'
+                    and U(c.func) != 'np.ma.filled' and not c.args
+                    and not c.keywords)):
+                bad += 1
+                ctx.violation(
+                    rule, repo.loc(c, cls, fn.name), construct,
+                    'L20 filled without value',
+                    '`%s` replaces masked entries by numpy\'s default fill '
+                    'value (1e20 for floats)' % U(c)[:60])
+        # L21: a loop whose body always leaves in its first iteration
+        for l in ast.walk(fn):
+            if isinstance(l, (ast.For, ast.While)) and l.body and isinstance(
+                    l.body[-1], (ast.Return, ast.Break)) and not any(
+                        isinstance(x, ast.Continue) for b in l.body
+                        for x in ast.walk(b)):
+                bad += 1
+                ctx.violation(
+                    rule, repo.loc(l.body[-1], cls, fn.name), construct,
+                    'L21 loop leaves in first iteration',
+                    'the loop `%s` ends every first iteration with `%s`: '
+                    'only the first element is processed' % (
+                        norm_stmt(l)[:50], norm_stmt(l.body[-1])[:30]))
+        # L22: process-wide settings changed by library code
+        for c in ast.walk(fn):
+            if isinstance(c, ast.Call) and (U(c.func) in GLOBAL_SETTERS or (
+                    isinstance(c.func, ast.Attribute) and U(
+                        c.func.value).startswith('os.environ'))):
+                par = getattr(c, '_parent', None)
+                if isinstance(par, ast.withitem):
+                    continue
+                bad += 1
+                ctx.violation(
+                    rule, repo.loc(c, cls, fn.name), construct,
+                    'L22 global setting %s' % U(c.func),
+                    '`%s` changes a process-wide setting and does not '
+                    'restore it: evaluations then alter the behaviour of '
+                    'the caller\'s own code' % U(c)[:60])
         # L14: a container created with *_like(<argument>) inherits the
         # argument's dtype; storing computed (floating point) values into it
         # truncates them for integer input
@@ -520,5 +783,40 @@ def r00(ctx, repo, files=None):
             ctx.ok(rule, repo.loc(fn, cls, fn.name), construct,
                    'loop elements are used, no stale loop variable, every '
                    'assigned local is read')
+    # L24: a keyword that several API functions share has one default; a
+    # function whose default differs from all its siblings behaves
+    # differently for the standard call (exceptions tabled with a reason)
+    import collections
+    table = collections.defaultdict(lambda: collections.defaultdict(list))
+    for rel2, cls2, fn2 in repo.all_functions():
+        a = fn2.args
+        pos, dfl = a.args, a.defaults
+        pairs = list(zip(pos[len(pos) - len(dfl):], dfl)) + [
+            (x, d) for x, d in zip(a.kwonlyargs, a.kw_defaults)
+            if d is not None]
+        for arg, de in pairs:
+            table[arg.arg][U(de)].append((rel2, cls2, fn2))
+    for pname, vals in sorted(table.items()):
+        total = sum(len(v) for v in vals.values())
+        if len(vals) < 2 or total < 3 or pname in DEFAULTS_DIFFER_OK:
+            continue
+        major = max(vals.items(), key=lambda kv: len(kv[1]))
+        if len(major[1]) < total - 1:
+            continue
+        for dv, sites in vals.items():
+            if dv == major[0]:
+                continue
+            for rel2, cls2, fn2 in sites:
+                if files is not None and rel2 not in files:
+                    continue
+                construct = '%s.%s' % (cls2, fn2.name) if cls2 else fn2.name
+                ctx.violation(
+                    rule, repo.loc(fn2, cls2, fn2.name), construct,
+                    'L24 default of %s' % pname,
+                    '`%s=%s` in %s, while the %d other functions that take '
+                    '`%s` default to %s: the standard call (no explicit '
+                    'value) behaves differently here' % (
+                        pname, dv, construct, len(major[1]), pname,
+                        major[0]))
     if n_fn < 5:
         ctx.error(rule, 'only %d functions analysed' % n_fn)
